@@ -295,3 +295,8 @@ def run(ctx) -> None:
         return check_level2(case)
 
     ctx.hyp("l2", l2_cases, run_l2, ctx.n(300, 32000))
+    # coverage-guided byte-level search (atheris/libFuzzer) over packets, marker-free garbage and cut points; an additional
+    # search, the verdict never depends on it being available
+    from .. import fuzzrun
+    if not ctx.quick or ctx.shard < 2:
+        fuzzrun.run_atheris(ctx, "c04", 40000 if ctx.quick else 1500000, check_case, max_len=1400)
